@@ -1230,6 +1230,13 @@ var c06Corpus = []c06CorpusCase{
 	{[]string{"mem", "p1"}, []string{"set 11 k0|u8:1|||||", "inc u8 k0 1 eq:5 - 0||1|u2|b3600000000000", "get k0"}},
 	{[]string{"mem", "p1"}, []string{"size k0", "issw", "count"}},
 	{[]string{"mem", "p1"}, []string{"arek k0 k1", "count", "set 00 k0|i64:5|||||", "set 01 k0|i64:5|||||"}},
+	// fixed-width wrap-around of every integer type, and the increment conditions at their boundary
+	{[]string{"mem"}, []string{"set 11 k0|u8:255||||| k1|i8:127||||| k2|i64:9223372036854775807||||| k3|u64:18446744073709551615||||| k4|i32:-2147483648||||| k5|u16:65535|||||",
+		"inc u8 k0 1 - - -", "inc i8 k1 1 - - -", "inc i64 k2 1 - - -", "inc u64 k3 2 - - -", "inc i32 k4 -1 - - -", "inc u16 k5 2 - - -", "getall",
+		"inc u8 k0 100 gt:0 - -", "inc u8 k0 100 ge:0 - -", "inc u8 k0 100 lt:100 - -", "inc u8 k0 100 le:100 - -", "inc u8 k0 56 eq:200 - -", "inc u8 k0 1 ne:0 - -", "getall"}},
+	{[]string{"mem"}, []string{"set 11 k0|i16:32767||||| k1|u32:4294967295||||| k2|f64:3ff0000000000000||||| k3|f32:3f800000|||||",
+		"inc i16 k0 1 - - -", "inc u32 k1 1 - - -", "inc f64 k2 3ff0000000000000 gt:3ff0000000000000 - -", "inc f64 k2 3ff0000000000000 ge:3ff0000000000000 - -",
+		"inc f32 k3 3f800000 lt:3f800000 - -", "inc f32 k3 3f800000 le:3f800000 - -", "getall"}},
 }
 
 func c06Gen(rng *rand.Rand, tier string, w *bufio.Writer) {
